@@ -5,7 +5,8 @@ From Coq Require Import List ZArith Bool Arith QArith.
 Import ListNotations.
 Require Import DH.Common.VecOrd DH.C11_Pareto.Model.
 Require Import DH.C12_Hypervolume.Model DH.C12_Hypervolume.Lemmas DH.C12_Hypervolume.LemmasGrid
-  DH.C12_Hypervolume.LemmasCells DH.C12_Hypervolume.LemmasScale DH.C12_Hypervolume.Check DH.C12_Hypervolume.LemmasProp.
+  DH.C12_Hypervolume.LemmasCells DH.C12_Hypervolume.LemmasScale DH.C12_Hypervolume.Check DH.C12_Hypervolume.LemmasProp
+  DH.C12_Hypervolume.ModelRecorder DH.C12_Hypervolume.LemmasRecorder DH.C12_Hypervolume.CheckRecorder.
 Open Scope Z_scope.
 
 (* exactness anchor: the specification is the number of unit cells of the box prod_k [lo, ref_k) whose lower corner is
@@ -94,6 +95,51 @@ Theorem C12_oracle_case : forall lo ref P, ok_case ref P = true -> Forall (fun r
   Valid lo ref P /\ ref <> [] /\ (forall p, In p P -> wdom p ref = true).
 Proof. exact oracle_case. Qed.
 Print Assumptions C12_oracle_case.
+
+(* ---- several calls: the recorder of evaluator/callback.py along ANY history of gathered jobs ---- *)
+
+(* the hypervolume grows with the reference point *)
+Theorem C12_ref_monotone : forall lo ref ref' P, SameLen (length ref) P -> Forall2 Z.le ref ref' ->
+  hv_spec lo ref P <= hv_spec lo ref' P.
+Proof. exact hv_ref_mono. Qed.
+Print Assumptions C12_ref_monotone.
+
+(* what the recorder returns after a history: the specified hypervolume of the recorded (negated) objectives w.r.t. their
+   componentwise worst point, which every recorded point weakly dominates (so the case is inside the property) *)
+Theorem C12_recorder_value : forall d evs, WellFormed d evs -> rec_state evs <> [] ->
+  let st := rec_state evs in
+  rec_out d evs = Some (hv_spec (lowb (worst d st) st) (worst d st) st)
+  /\ (forall p, In p st -> wdom p (worst d st) = true).
+Proof. exact rec_out_spec. Qed.
+Print Assumptions C12_recorder_value.
+
+(* failed jobs never change the record *)
+Theorem C12_recorder_failures_irrelevant : forall evs,
+  rec_state evs = rec_state (filter (fun e => match e with EFail => false | EObj _ => true end) evs).
+Proof. exact rec_failures_irrelevant. Qed.
+Print Assumptions C12_recorder_failures_irrelevant.
+
+(* the returned value never decreases from one call to the next, although the reference point moves *)
+Theorem C12_recorder_monotone : forall d evs e, WellFormed d (evs ++ [e]) ->
+  opt_le (rec_out d evs) (rec_out d (evs ++ [e])).
+Proof. exact rec_monotone. Qed.
+Print Assumptions C12_recorder_monotone.
+
+Theorem C12_oracle_recorder : forall s d evs num den, 0 < s ->
+  (ok_rec_exact s d evs num den = true <->
+   let st := rec_state evs in
+   WellFormed d evs /\ st <> [] /\ 0 < den /\
+   (num # Z.to_pos den == hv_spec (lowb (worst d st) st) (worst d st) st # Z.to_pos (scale_pow s (worst d st)))%Q).
+Proof. exact ok_rec_exact_spec. Qed.
+Print Assumptions C12_oracle_recorder.
+
+Example C12_example_recorder :
+  let h := [EObj [1;1]; EFail; EObj [3;0]; EObj [0;3]; EObj [2;2]] in
+  map (fun k => rec_out 2 (firstn k h)) [0;1;2;3;4;5]%nat = [None; Some 0; Some 0; Some 0; Some 1; Some 4]
+  /\ WellFormed 2 h.
+Proof.
+  split; [vm_compute; reflexivity|]. intros v Hv. repeat (destruct Hv as [Hv|Hv]; [try discriminate; injection Hv as <-; reflexivity|]). destruct Hv.
+Qed.
 
 (* non-vacuity: concrete sets with ties, duplicates, dominated and boundary points; all evaluators agree *)
 Example C12_example_2d :
